@@ -153,8 +153,11 @@ def one_setup(chk, drv, it, stats):
     nv = rng.randint(6, 8)
     uniform_flag = rng.random() < 0.7
     from_f = rng.random() < 0.45
-    adiabatic = rng.random() < 0.7
-    chi = rng.choice([0, 1]) if adiabatic else None
+    # the three electron models in turn (every run of the check, whatever the seed, solves each of them with content in modes m != 0)
+    adiabatic = it % 3 != 2
+    chi = (it % 3) if adiabatic else None
+    if it < 6:
+        nth = max(nth, 3)
     cfg = {'qdeg': rng.choice([2 * d, 2 * d + 1, 7, 6, 3]), 'adiabatic': adiabatic, 'chi': chi,
            'B': rng.choice([1.0, 1.0, 2.0]), 'dens_degree': rng.choice([3, 6]), 'custom_profiles': rng.random() < 0.3}
     rrange = rng.choice([(0.1, 14.5), (1.0, 3.0), (2.0, 9.0)])
@@ -172,6 +175,8 @@ def one_setup(chk, drv, it, stats):
     consts.npts = [nr, nth, nz, nv]
     nprng = np.random.RandomState(rng.randrange(1 << 30))
     kind = rng.choice(['random', 'random', 'single_mode', 'equilibrium'])
+    if it < 6:
+        kind = 'random'
     from props import c16
     feq_tab = c16.feq_oracle(S)
     F = rho0 = None
